@@ -558,6 +558,67 @@ example : (∀ i, ∀ j ∈ exNbrs i, j < 5) := by
   | 0 | 1 | 2 | 3 | 4 => simp [exNbrs] at h; omega
   | _ + 5 => simp [exNbrs] at h
 
+section optics_determined
+open LinfaSpec.Optics
+variable {D : Type} [LinearOrder D]
+
+/-- **what of the OPTICS result is a function of the relation and the distances** (two query results
+`nbrs₁ i ~ nbrs₂ i` that are permutations of each other for every sample, as two indices return them):
+(a) both orderings list the same samples (each once); (b) a sample carries the same core distance in
+both; (c) every defined reachability of the second run is `max(core(o), dist(x, o))` for a sample `o`
+listed strictly earlier *in that run*, where `core(o)` is the core distance computed from the **first**
+relation and `x` is in range of `o` in the first relation.  Needs no duplicate-freeness; the identity
+of the two orderings is `optics_ordering_determined` below. -/
+theorem optics_determined_by_relation (nbrs₁ nbrs₂ : Nat → List Nat) (dist : Nat → Nat → D) (mp n : Nat)
+    (hrange : ∀ i, ∀ j ∈ nbrs₁ i, j < n) (hperm : ∀ i, (nbrs₁ i).Perm (nbrs₂ i)) :
+    ((optics (some nbrs₁) dist mp n).map (·.index)).Perm ((optics (some nbrs₂) dist mp n).map (·.index)) ∧
+    (∀ e₁ ∈ optics (some nbrs₁) dist mp n, ∀ e₂ ∈ optics (some nbrs₂) dist mp n,
+      e₁.index = e₂.index → e₁.core = e₂.core) ∧
+    (∀ (p : Nat) (e : Entry D), (optics (some nbrs₂) dist mp n)[p]? = some e → ∀ r : D, e.reach = some r →
+      ∃ (q : Nat) (o : Entry D) (c : D), q < p ∧ (optics (some nbrs₂) dist mp n)[q]? = some o ∧
+        coreDist dist mp o.index (findNeighbors nbrs₁ dist o.index) = some c ∧
+        e.index ∈ nbrs₁ o.index ∧ r = max c (dist e.index o.index)) := by
+  have hrange₂ : ∀ i, ∀ j ∈ nbrs₂ i, j < n := fun i j hj => hrange i j ((hperm i).symm.subset hj)
+  have ok₁ := foldl_CoreOK nbrs₁ dist mp n (List.range n) (Optics.init n)
+    (by intro e he; simp [Optics.init] at he)
+  have ok₂ := foldl_CoreOK nbrs₂ dist mp n (List.range n) (Optics.init n)
+    (by intro e he; simp [Optics.init] at he)
+  refine ⟨?_, ?_, ?_⟩
+  · obtain ⟨nd₁, m₁⟩ := optics_lists_each_once nbrs₁ dist mp n hrange
+    obtain ⟨nd₂, m₂⟩ := optics_lists_each_once nbrs₂ dist mp n hrange₂
+    exact (List.perm_ext_iff_of_nodup nd₁ nd₂).mpr fun j => (m₁ j).trans (m₂ j).symm
+  · intro e₁ h₁ e₂ h₂ hidx
+    have a := ok₁ e₁ h₁
+    have b := ok₂ e₂ h₂
+    rw [a, b, hidx]
+    exact optics_core_distance_index_independent nbrs₁ nbrs₂ dist mp e₂.index (hperm e₂.index)
+  · intro p e he r hr
+    obtain ⟨q, o, c, hq, ho, hc, hm, hrr⟩ := optics_reachability_witness nbrs₂ dist mp n hrange₂ p e he r hr
+    refine ⟨q, o, c, hq, ho, ?_, (hperm o.index).symm.subset hm, hrr⟩
+    rw [optics_core_distance_index_independent nbrs₁ nbrs₂ dist mp o.index (hperm o.index),
+      ← ok₂ o (List.mem_of_getElem? ho)]
+    exact hc
+
+/-- **the whole OPTICS result — ordering, core distances, reachabilities — is a function of the
+relation and the distances**: two neighbour functions whose (duplicate-free) query results are
+permutations of each other give the *identical* list of entries.  (In the code the seeds are re-sorted by
+position before every selection, so neither the order in which an index returns the neighbours nor the
+order in which seeds were pushed reaches the result.) -/
+theorem optics_ordering_determined (nbrs₁ nbrs₂ : Nat → List Nat) (dist : Nat → Nat → D) (mp n : Nat)
+    (hperm : ∀ i, (nbrs₁ i).Perm (nbrs₂ i)) (hnd : ∀ i, (nbrs₁ i).Nodup) :
+    optics (some nbrs₁) dist mp n = optics (some nbrs₂) dist mp n :=
+  (Optics.foldl_Sim nbrs₁ nbrs₂ dist mp hperm hnd n (List.range n) (Optics.init n) (Optics.init n)
+    ⟨rfl, rfl, rfl, List.Perm.refl _⟩).out
+
+/-- non-vacuity: samples `[0, 6, 1, 5, 2]` (`exDist`), all within the tolerance of each other,
+`min_points = 3`; the query for sample 0 returned in two different orders -/
+example : ∀ i, ((fun _ : Nat => [0, 2, 3, 4, 1]) i).Perm ((fun _ : Nat => [0, 1, 2, 4, 3]) i) := by
+  intro i; show ([0, 2, 3, 4, 1] : List Nat).Perm [0, 1, 2, 4, 3]; decide
+example : ∀ i, ((fun _ : Nat => [0, 2, 3, 4, 1]) i).Nodup := by
+  intro i; show ([0, 2, 3, 4, 1] : List Nat).Nodup; decide
+
+end optics_determined
+
 /-- non-vacuity (the witness of the fixed defect): samples `[0, 3, 0.5, 2.5, 1, 9, 9.5]` ×2 (so that the
 distances are naturals), tolerance 5.5, `min_points = 3`.  The linear search returns `[0, 2, 3, 4]` for
 sample 0, the trees `[0, 2, 4, 3]`; both give core distance 2 (= 1.0), unsorted reading gave 5. -/
